@@ -117,6 +117,7 @@ Fixpoint ozl_eqb (a b : list (option Z)) := match a, b with [], [] => true | x :
 Definition oozl_eqb (a b : option (list (option Z))) := match a, b with Some x, Some y => ozl_eqb x y | None, None => true | _, _ => false end.
 Definition ostr_eqb (a b : option str) := match a, b with Some x, Some y => str_eqb x y | None, None => true | _, _ => false end.
 Definition upper (c : Z) := if is_lower c then c - 32 else c.
+Fixpoint zs (n : nat) (c : Z) : list Z := match n with O => [] | S f => c :: zs f (c + 1) end.
 Inductive pcase :=
 | PCol (n : Z) (alpha : option str) (back back_lower : option Z)
 | PAlpha (s : str) (d : option Z) (back : option str)
@@ -151,7 +152,7 @@ Definition chk (c : pcase) : nat :=
       else if (0 <=? v) && negb (oz_eqb r (Some v)) then 1
       else if oz_eqb r (increment v step) then 0 else 2
   | PAny x len idx valid r => if oz_eqb r (translate_from_any x len idx) then 0 else if valid then 2 else 9
-  | PSpace l => if str_eqb (filter is_space (zrange 0 65535)) l then 0 else 2
+  | PSpace l => if str_eqb (filter is_space (zs (Z.to_nat 65536) 0)) l then 0 else 2
   end.
 '''
 
